@@ -169,6 +169,15 @@ class Analyzer:
         self.locals_dirty = set()
         self.params = {}
         self.fmts = []
+        # parameters of this function, by declaration id -> position: a parameter used as an operand of an
+        # operation on rproc.st is kept SYMBOLIC (encoded -(position+1)) and bound to the call's argument
+        # when the callee's events are spliced into its caller (`expand`), so that wrapping the
+        # compare-and-swap in a small helper does not hide its constants
+        self.param_index = {}
+        for c in fn.get("inner", []):
+            if c.get("kind") == "ParmVarDecl" and "id" in c:
+                self.param_index[c["id"]] = len(self.param_index)
+        self.params_dirty = set()
 
     # ---- events
     def emit_var(self, name, member, use):
@@ -212,6 +221,8 @@ class Analyzer:
                 return self.u.enum.get(d["id"], UNK)
             if d["id"] in self.locals_init and d["id"] not in self.locals_dirty:
                 return self.resolve(self.locals_init[d["id"]])
+            if d.get("kind") == "ParmVarDecl" and d["id"] in self.param_index and d["id"] not in self.params_dirty:
+                return -(self.param_index[d["id"]] + 1)
         return UNK
 
     def is_st(self, e):
@@ -254,6 +265,8 @@ class Analyzer:
                 self.emit_var(name, "*", "r" if use == "n" else use)
             elif d.get("kind") == "VarDecl" and "w" in use:
                 self.locals_dirty.add(d["id"])
+            elif d.get("kind") == "ParmVarDecl" and "w" in use:
+                self.params_dirty.add(d["id"])
             return
         if k == "MemberExpr":
             if not n.get("isArrow"):
@@ -440,7 +453,7 @@ class Analyzer:
                         lit = f["value"].strip('"')
                     self.fmts.append(lit)
         if fname is not None:
-            self.ev.append(("call", fname))
+            self.ev.append(("call", fname, tuple(self.resolve(a) for a in ch[1:])))
 
 
 def analyse(units):
@@ -471,12 +484,38 @@ def expand(name, seqs, memo, stack):
     for e in seqs[name]:
         if e[0] == "call":
             if e[1] in seqs:
-                out += expand(e[1], seqs, memo, stack)
+                args = e[2] if len(e) > 2 else ()
+                out += [bind(x, args) for x in expand(e[1], seqs, memo, stack)]
         else:
             out.append(e)
     stack.pop()
     if not stack:
         memo[name] = out
+    return out
+
+
+def bind(e, args):
+    """Replace the callee's symbolic parameter values (-(i+1)) in a spliced event by the call's
+    arguments (which may themselves be symbolic in the caller's frame)."""
+    if e[0] != "st":
+        return e
+
+    def sub(v):
+        if isinstance(v, int) and v < 0:
+            i = -v - 1
+            return args[i] if i < len(args) else UNK
+        return v
+    return (e[0], e[1], sub(e[2]), sub(e[3]), e[4])
+
+
+def ground(ev):
+    """Events of a public function: a value that is still symbolic comes from the caller of the API."""
+    out = []
+    for e in ev:
+        if e[0] == "st":
+            e = (e[0], e[1], e[2] if not (isinstance(e[2], int) and e[2] < 0) else UNK,
+                 e[3] if not (isinstance(e[3], int) and e[3] < 0) else UNK, e[4])
+        out.append(e)
     return out
 
 
@@ -524,7 +563,7 @@ def main():
     rows = []
     info = {}
     for name in api:
-        ev = expand(name, seqs, memo, [])
+        ev = ground(expand(name, seqs, memo, []))
         reads = sorted(set(e[1] for e in ev if e[0] == "pr") | ({ST_MEMBER} if any(
             e[0] == "st" and e[1] in (K_LOAD, K_CAS, K_UNKNOWN) for e in ev) else set()))
         writes = sorted(set(e[1] for e in ev if e[0] == "pw") | ({ST_MEMBER} if any(
